@@ -29,6 +29,16 @@ CHECKS["C14"] = dict(
    text="12 operand-indexed shapes (locals, params, arguments, literals, constants, names, functions, captured variables, regex literals, switch cases) with n across 254..257/511..513/1000 and 14 byte-offset shapes (if/else, loops with break/continue, try, switch, logical/plus chains, string literal) sized from the measured bytecode bytes per statement to sit just below/at/above 256, 32768, 65536, 70000, 131072 and 200000 bytes, each at top level, in a function and in a callback. The result must equal the closed form, or eval must refuse with a JSError about size before anything ran (host flag).",
    note="Expected values are closed forms computed by the check. The byte sizing reads Compiler output when importable (fail-soft to a wide sweep).",
    ref="4/C14")
+CHECKS["C02"] = dict(
+   technique="recursion-shape enumeration with an exact stop-class/depth oracle + seeded random abrupt-exit bodies under a metamorphic N-iterations-in-the-same-memory relation",
+   text="(a) 20 script recursion shapes plus recursion through every discovered callback-taking built-in, accessors, conversions, call/apply/bind and eval x memory limits 2e3..1e7 x time limit set/unset must end in MemoryLimitError (never RecursionError, a crash, a value) at a depth bounded by M/200. (b) Randomly generated terminating bodies built from loops, for-in/for-of, switch, labelled blocks, try/catch/finally, helper calls and mid-expression throws with every abrupt exit kind are run N=300 (2000) times under 4x the memory one run needs: no MemoryLimitError, exactly N times the single-run log, and a sentinel thrown afterwards must surface uncaught (stale handlers would swallow it).",
+   note="(b) is metamorphic (needs no model of the body's meaning). Heap data is unaccounted by the engine by documentation and not judged.",
+   ref="4/C02")
+CHECKS["C19"] = dict(
+   technique="Hypothesis-generated JSON values, grammar-generated texts, single-token near-miss mutants and non-JSON script values against a hand-written strict parser/serialiser; round-trip laws",
+   text="parse(t) equals the reference value (typed, UTF-16), every near-miss text is rejected with a SyntaxError the script itself catches, stringify(v) equals the SerializeJSONProperty transcription for values incl. undefined/functions/NaN/cycles/toJSON/replacer/indent, parse(stringify(v)) == v and stringify(parse(t)) == canonical(t); 1.15e5 cases quick, 1.9e6 thorough.",
+   note="Trusts oracles/jsonref.py (0 disagreements with node on 78 201 generated cases at development time). Integer-key ordering and accessor serialisation are recorded known findings of the object model.",
+   ref="4/C19")
 NA = {}
 m = {
  "version": 1,
